@@ -82,6 +82,7 @@ type Env struct {
 	DefScript []WOp
 	UniqueIDs bool // builders hand out unique component ids (only in single-goroutine worlds)
 	Arena     bool // middleware lists share one backing array (adversarial but legal caller)
+	Quiet     bool // factories do not log their calls (worlds where several tasks register concurrently)
 	arena     []types.Middleware[*Comp]
 	// per-task id spaces in concurrent worlds: id = task*100000 + n
 }
@@ -131,7 +132,9 @@ func (m *MW) Middleware(next *Comp, method, pattern, router string) *Comp {
 	if b := next.base(); b != nil {
 		fc.Base, fc.BaseKind = b.ID, b.Kind
 	}
-	m.env.Factory = append(m.env.Factory, fc)
+	if !m.env.Quiet {
+		m.env.Factory = append(m.env.Factory, fc)
+	}
 	return &Comp{ID: -1, Kind: KMW, Tag: m.Tag, Next: next, env: m.env}
 }
 
